@@ -15,13 +15,13 @@ PROPERTY = "C19"
 LEVEL = "model_checking"
 VARIANTS = ["fast", "tsan"]
 RULE = ("sequential: 10 initial configurations x all action sequences of length <=4 (quick) / <=5 (thorough) over 6 actions; states = distinct "
-        "(runtime state, frame depths/positions) reached, transitions = actions; concurrent: executor start on 3 script kinds x all controller "
+        "(runtime state, frame depths/positions) reached, transitions = actions; concurrent: executor start on 4 script kinds (straight, loop, erroring, all scripts asleep under a ticking virtual clock) x all controller "
         "sequences of <=2 actions over 5 actions, all schedules with <=2 (quick) / <=3 (thorough) preemptions at the hook points; "
         "states = scheduling points visited, transitions = executions (complete schedules)")
 ASSUMPTIONS = [
     "interleavings are explored at the hooked points under sequential consistency (x86-64); weaker memory orderings and spurious failure of "
     "compare_exchange_weak are not modelled",
-    "`bounded number of instructions` for stop/abort to take effect: <= 2 instructions after the action returned ok",
+    "`bounded number of instructions` for stop/abort to take effect: <= 2 instructions and <= 3 scheduler turns (a turn of a sleeping script executes nothing) after the action returned ok",
     "free-running TSan pass: races are reported by happens-before analysis whenever both accesses occur; 20 repetitions cover both orders of the start barrier",
 ]
 DEADLINE_S = {"quick": 540, "thorough": 1700}
@@ -203,7 +203,10 @@ SCRIPTS = {
     "straight": "a = 1; b = 2; c = 3; d = 4",
     "loop": "for \"_i\" from 1 to 3 do { x = _i }",
     "erroring": 'a = 1; b = 1 + "x"; c = 3',
+    # every script of the VM is asleep for some scheduler rounds (virtual clock: 100 us per query, ~30 scheduler rounds, see TICKS)
+    "all-asleep": '[] spawn { sleep 0.003; z = 1; z = 2; z = 3; z = 4 }; a = 1',
 }
+TICKS = {"all-asleep": 100}
 
 
 def gen_conc(maxctl):
@@ -218,7 +221,7 @@ def gen_conc(maxctl):
 def check_conc(ws, case, bound=2):
     script, ctl = case
     r = ws.call({"mode": "mt", "fork": True, "timeout_ms": 240000, "what": "control", "script": SCRIPTS[script], "controller": ctl, "bound": bound,
-                 "max_executions": 200000}, variant="fast")
+                 "max_executions": 200000, "tick_us": TICKS.get(script, 0)}, variant="fast")
     if r["outcome"] != "ok":
         from .c09 import kind_class
         kind = r.get("kind", r["outcome"]) if r["outcome"] == "crash" else r["outcome"]
